@@ -194,6 +194,15 @@ static unsigned long k_query(void *o)
 	return c;
 }
 
+/* allocation failure inside one sqfs_copy call: linked with -Wl,--wrap=malloc,--wrap=calloc,--wrap=realloc,--wrap=strdup */
+static long fail_in = 0;        /* > 0: the fail_in-th allocation from now on returns NULL (then disarmed) */
+void *__real_malloc(size_t); void *__real_calloc(size_t, size_t); void *__real_realloc(void *, size_t); char *__real_strdup(const char *);
+static int hit(void) { if (fail_in > 0 && --fail_in == 0) return 1; return 0; }
+void *__wrap_malloc(size_t n) { return hit() ? NULL : __real_malloc(n); }
+void *__wrap_calloc(size_t a, size_t b) { return hit() ? NULL : __real_calloc(a, b); }
+void *__wrap_realloc(void *p, size_t n) { return hit() ? NULL : __real_realloc(p, n); }
+char *__wrap_strdup(const char *s) { return hit() ? NULL : __real_strdup(s); }
+
 int main(int argc, char **argv)
 {
 	if (argc < 4) return 2;
@@ -243,6 +252,15 @@ int main(int argc, char **argv)
 			memcpy(muts[b], muts[a], sizeof muts[a]); nm[b] = nm[a];
 			printf("{\"i\":%d,\"op\":\"copy %d %d\",\"null\":%d}\n", i, a, b, obj[b] == NULL);
 			if (!obj[b]) { printf("{\"i\":%d,\"copy_failed\":true}\n", i); break; }
+		} else if (!strcmp(op, "copyfail")) {
+			/* b-th allocation inside the copy fails; whatever comes back is released at once: net effect nothing */
+			if (!obj[a]) { printf("{\"i\":%d,\"bad\":\"copyfail\"}\n", i); continue; }
+			fail_in = b;
+			void *c = sqfs_copy(obj[a]);
+			int fired = fail_in == 0;
+			fail_in = 0;
+			if (c) sqfs_drop(c);
+			printf("{\"i\":%d,\"op\":\"copyfail %d %d\",\"null\":%d,\"fired\":%d}\n", i, a, b, c == NULL, fired);
 		} else if (!strcmp(op, "grab")) {
 			if (obj[a]) sqfs_grab(obj[a]);
 			printf("{\"i\":%d,\"op\":\"grab %d\"}\n", i, a);
